@@ -288,30 +288,42 @@ Definition ok_prefix (recs : list rec) (bytes : list N) : bool :=
   existsb (fun k => match_recs (firstn k recs) bytes) (seq 0 (S (length recs))).
 
 (* ------------------------------------------------------------------ lazy recording *)
-(* mcount_ret_stack as far as record_trace_data looks at it *)
-Record call := { c_addr : N; c_start : N; c_pl : list N }.     (* child_ip, start_time, saved arguments *)
+(* mcount_ret_stack as far as record_trace_data looks at it.  `c_skip`: the frame carries
+   MCOUNT_FL_NORECORD (a function hidden by -N, a PLT call beyond the depth limit, ...): it is on the
+   return stack but gets no record, is never marked WRITTEN and does not count for the depth *)
+Record call := { c_addr : N; c_start : N; c_pl : list N; c_skip : bool }.
 Record frame := { fr_call : call; fr_written : bool }.          (* + MCOUNT_FL_WRITTEN *)
 Inductive op :=
-| OEnter (addr time : N) (pl : list N)       (* mcount_entry, argument payload as saved *)
-| OExit (time : N) (pl : list N).            (* mcount_exit, return value payload *)
+| OEnter (addr time : N) (pl : list N) (skip : bool)   (* hook entry that pushes a frame; argument payload as saved *)
+| OExit (time : N) (pl : list N).                      (* hook exit of the innermost frame; return value payload *)
 
 Definition entry_rec (depth : nat) (c : call) : rec :=
   {| r_time := c_start c; r_type := UFTRACE_ENTRY; r_depth := N.of_nat depth; r_addr := c_addr c; r_pl := c_pl c |}.
 Definition exit_rec (depth : nat) (c : call) (t : N) (pl : list N) : rec :=
   {| r_time := t; r_type := UFTRACE_EXIT; r_depth := N.of_nat depth; r_addr := c_addr c; r_pl := pl |}.
-Definition mark (f : frame) : frame := {| fr_call := fr_call f; fr_written := true |}.
-Definition new_frame (a t : N) (pl : list N) : frame :=
-  {| fr_call := {| c_addr := a; c_start := t; c_pl := pl |}; fr_written := false |}.
+Definition fr_skip (f : frame) : bool := c_skip (fr_call f).
+(* record_ret_stack sets WRITTEN; frames with SKIP_FLAGS are stepped over *)
+Definition mark (f : frame) : frame := if fr_skip f then f else {| fr_call := fr_call f; fr_written := true |}.
+Definition new_frame (a t : N) (pl : list N) (skip : bool) : frame :=
+  {| fr_call := {| c_addr := a; c_start := t; c_pl := pl; c_skip := skip |}; fr_written := false |}.
+(* rstack->depth = mtdp->record_idx at entry: the number of recordable frames below *)
+Definition rdepth (l : list frame) : nat := length (filter (fun f => negb (fr_skip f)) l).
+Definition cdepth (l : list call) : nat := length (filter (fun c => negb (c_skip c)) l).
 
 (* the rstack is kept bottom first.  record_trace_data(top): walk down while the frame below
-   is not WRITTEN, then write ENTRY records upwards.  Returns the records and the marked stack. *)
+   is not WRITTEN, then write the ENTRY records of the recordable frames upwards.
+   Returns the records and the marked stack. *)
 Fixpoint unwritten_top (rstk : list frame) : nat :=      (* on the reversed stack: top first *)
   match rstk with
   | [] => 0
   | f :: t => if fr_written f then 0 else S (unwritten_top t)
   end.
 Fixpoint entries_from (depth : nat) (l : list frame) : list rec :=
-  match l with [] => [] | f :: t => entry_rec depth (fr_call f) :: entries_from (S depth) t end.
+  match l with
+  | [] => []
+  | f :: t => if fr_skip f then entries_from depth t
+              else entry_rec depth (fr_call f) :: entries_from (S depth) t
+  end.
 Definition flush_entries (stk : list frame) : list rec * list frame :=
   match rev stk with
   | [] => ([], stk)
@@ -320,21 +332,22 @@ Definition flush_entries (stk : list frame) : list rec * list frame :=
       else
         let n := S (unwritten_top below) in
         let keep := length stk - n in
-        (entries_from keep (skipn keep stk), firstn keep stk ++ map mark (skipn keep stk))
+        (entries_from (rdepth (firstn keep stk)) (skipn keep stk), firstn keep stk ++ map mark (skipn keep stk))
   end.
 
 (* one hook call; returns the records written by it (in order) *)
 Definition op_step (stk : list frame) (o : op) : list frame * list rec :=
   match o with
-  | OEnter a t pl => (stk ++ [new_frame a t pl], [])
+  | OEnter a t pl skip => (stk ++ [new_frame a t pl skip], [])
   | OExit t pl =>
       match rev stk with
       | [] => (stk, [])
       | top :: _ =>
+          if fr_skip top then (removelast stk, [])         (* NORECORD: mcount_exit_filter_record records nothing *)
           (* mcount_exit_filter_record with threshold 0: end - start > 0 (unsigned) or WRITTEN *)
-          if negb (t =? c_start (fr_call top))%N || fr_written top then
+          else if negb (t =? c_start (fr_call top))%N || fr_written top then
             let '(es, stk') := flush_entries stk in
-            (removelast stk', es ++ [exit_rec (length stk - 1) (fr_call top) t pl])
+            (removelast stk', es ++ [exit_rec (rdepth (removelast stk)) (fr_call top) t pl])
           else (removelast stk, [])
       end
   end.
@@ -344,32 +357,35 @@ Fixpoint ops_run (stk : list frame) (ops : list op) : list frame * list (list re
   | o :: t => let '(stk1, rs) := op_step stk o in
               let '(stk2, rss) := ops_run stk1 t in (stk2, rs :: rss)
   end.
-(* segv_handler / PLT_FL_FLUSH: record_trace_data(top) with end_time = 0 *)
+(* segv_handler / PLT_FL_FLUSH: record_trace_data(innermost frame) with end_time = 0 *)
 Definition segv_flush (stk : list frame) : list rec := fst (flush_entries stk).
 
-(* what an eager tracer would have written (its stack carries no flags) *)
+(* what an eager tracer would have written (its stack carries no WRITTEN flags) *)
 Fixpoint eager (stk : list call) (ops : list op) : list rec :=
   match ops with
   | [] => []
-  | OEnter a t pl :: r =>
-      let c := {| c_addr := a; c_start := t; c_pl := pl |} in
-      entry_rec (length stk) c :: eager (stk ++ [c]) r
+  | OEnter a t pl skip :: r =>
+      let c := {| c_addr := a; c_start := t; c_pl := pl; c_skip := skip |} in
+      if skip then eager (stk ++ [c]) r
+      else entry_rec (cdepth stk) c :: eager (stk ++ [c]) r
   | OExit t pl :: r =>
       match rev stk with
       | [] => eager stk r
-      | top :: _ => exit_rec (length stk - 1) top t pl :: eager (removelast stk) r
+      | top :: _ =>
+          if c_skip top then eager (removelast stk) r
+          else exit_rec (cdepth (removelast stk)) top t pl :: eager (removelast stk) r
       end
   end.
-(* balanced so far (no exit without a call), and no call returns at the clock value it was
+(* balanced so far (no exit without a call), and no recorded call returns at the clock value it was
    entered with (such a call is dropped by the time filter even with threshold 0, see C02) *)
 Fixpoint wf_ops (stk : list call) (ops : list op) : bool :=
   match ops with
   | [] => true
-  | OEnter a t pl :: r => wf_ops (stk ++ [{| c_addr := a; c_start := t; c_pl := pl |}]) r
+  | OEnter a t pl skip :: r => wf_ops (stk ++ [{| c_addr := a; c_start := t; c_pl := pl; c_skip := skip |}]) r
   | OExit t pl :: r =>
       match rev stk with
       | [] => false
-      | top :: _ => negb (t =? c_start top)%N && wf_ops (removelast stk) r
+      | top :: _ => (c_skip top || negb (t =? c_start top)%N) && wf_ops (removelast stk) r
       end
   end.
 
@@ -377,8 +393,11 @@ Fixpoint wf_ops (stk : list call) (ops : list op) : bool :=
 Record tl := { t_pid : Z; t_tid : Z; t_exited : bool }.
 Inductive tmsg :=
 | TaskStart (pid tid : Z) | TaskEnd (tid : Z) | ForkStart (pid : Z) | ForkEnd (ppid tid : Z)
-| Finish | Other.
-Record rs := { tids : list tl; rchan : list tmsg; finish_received : bool; child_exited : bool;
+| Finish | Other
+| RecStart (sid tid idx : Z) | RecEnd (sid tid idx : Z).   (* "/uftrace-<sid>-<tid>-<idx>" *)
+Record rs := { tids : list tl; rchan : list tmsg;
+               shm : list (Z * Z * Z);     (* shmem_list_head: announced buffers (sid, tid, idx), oldest first *)
+               finish_received : bool; child_exited : bool;
                failed : bool (* pr_err: "cannot find fork pid" *) }.
 
 Local Open Scope Z_scope.
@@ -394,38 +413,54 @@ Fixpoint set_fork_tid (pred : tl -> bool) (tid : Z) (l : list tl) : option (list
   | t :: r => if pred t then Some ({| t_pid := t_pid t; t_tid := tid; t_exited := t_exited t |} :: r)
               else match set_fork_tid pred tid r with Some r' => Some (t :: r') | None => None end
   end.
+Definition id_eqb (a b : Z * Z * Z) : bool :=
+  let '(a1, a2, a3) := a in let '(b1, b2, b3) := b in (a1 =? b1) && (a2 =? b2) && (a3 =? b3).
+Fixpoint remove_first_id (x : Z * Z * Z) (l : list (Z * Z * Z)) : list (Z * Z * Z) :=
+  match l with [] => [] | y :: r => if id_eqb y x then r else y :: remove_first_id x r end.
+(* flush_old_shmem(tid): the first entry whose name carries that tid - the buffer of the image that
+   exec() wiped, announced before the new image's first buffer *)
+Fixpoint remove_first_tid (tid : Z) (l : list (Z * Z * Z)) : list (Z * Z * Z) :=
+  match l with [] => [] | (a, t, i) :: r => if t =? tid then r else (a, t, i) :: remove_first_tid tid r end.
 Definition handle (m : tmsg) (s : rs) : rs :=
   match m with
   | TaskStart pid tid =>
       (* existing tid (exec): flush_old_shmem, no new entry; else add_tid_list (list_add: at the head) *)
-      if existsb (fun t => t_tid t =? tid) (tids s) then s
-      else {| tids := {| t_pid := pid; t_tid := tid; t_exited := false |} :: tids s; rchan := rchan s;
+      if existsb (fun t => t_tid t =? tid) (tids s)
+      then {| tids := tids s; rchan := rchan s; shm := remove_first_tid tid (shm s);
+              finish_received := finish_received s; child_exited := child_exited s; failed := failed s |}
+      else {| tids := {| t_pid := pid; t_tid := tid; t_exited := false |} :: tids s; rchan := rchan s; shm := shm s;
               finish_received := finish_received s; child_exited := child_exited s; failed := failed s |}
   | TaskEnd tid =>
-      {| tids := mark_first tid (tids s); rchan := rchan s; finish_received := finish_received s;
+      {| tids := mark_first tid (tids s); rchan := rchan s; shm := shm s; finish_received := finish_received s;
          child_exited := child_exited s; failed := failed s |}
   | ForkStart pid =>
-      {| tids := {| t_pid := pid; t_tid := -1; t_exited := false |} :: tids s; rchan := rchan s;
+      {| tids := {| t_pid := pid; t_tid := -1; t_exited := false |} :: tids s; rchan := rchan s; shm := shm s;
          finish_received := finish_received s; child_exited := child_exited s; failed := failed s |}
   | ForkEnd ppid tid =>
       match set_fork_tid (fun t => (t_pid t =? ppid) && (t_tid t =? -1)) tid (tids s) with
-      | Some l => {| tids := l; rchan := rchan s; finish_received := finish_received s;
+      | Some l => {| tids := l; rchan := rchan s; shm := shm s; finish_received := finish_received s;
                      child_exited := child_exited s; failed := failed s |}
       | None =>
           match set_fork_tid (fun t => t_tid t =? -1) tid (tids s) with
-          | Some l => {| tids := l; rchan := rchan s; finish_received := finish_received s;
+          | Some l => {| tids := l; rchan := rchan s; shm := shm s; finish_received := finish_received s;
                          child_exited := child_exited s; failed := failed s |}
-          | None => {| tids := tids s; rchan := rchan s; finish_received := finish_received s;
+          | None => {| tids := tids s; rchan := rchan s; shm := shm s; finish_received := finish_received s;
                        child_exited := child_exited s; failed := true |}
           end
       end
-  | Finish => {| tids := tids s; rchan := rchan s; finish_received := true;
+  | Finish => {| tids := tids s; rchan := rchan s; shm := shm s; finish_received := true;
                  child_exited := child_exited s; failed := failed s |}
   | Other => s
+  | RecStart sid tid idx =>        (* list_add_tail *)
+      {| tids := tids s; rchan := rchan s; shm := shm s ++ [(sid, tid, idx)];
+         finish_received := finish_received s; child_exited := child_exited s; failed := failed s |}
+  | RecEnd sid tid idx =>          (* the first entry with that name is unlinked (then record_mmap_file) *)
+      {| tids := tids s; rchan := rchan s; shm := remove_first_id (sid, tid, idx) (shm s);
+         finish_received := finish_received s; child_exited := child_exited s; failed := failed s |}
   end.
 (* sigchld_handler *)
 Definition sigchld (pid : Z) (s : rs) : rs :=
-  {| tids := mark_first pid (tids s); rchan := rchan s; finish_received := finish_received s;
+  {| tids := mark_first pid (tids s); rchan := rchan s; shm := shm s; finish_received := finish_received s;
      child_exited := true; failed := failed s |}.
 (* check_tid_list; dead tid = /proc/<tid>/stat cannot be opened or shows state Z *)
 Definition check_mark (dead : Z -> bool) (t : tl) : tl :=
@@ -433,7 +468,7 @@ Definition check_mark (dead : Z -> bool) (t : tl) : tl :=
 Definition check_tid_list (dead : Z -> bool) (s : rs) : rs * bool :=
   let l := map (check_mark dead) (tids s) in
   let all := forallb t_exited l in
-  ({| tids := l; rchan := rchan s; finish_received := finish_received s;
+  ({| tids := l; rchan := rchan s; shm := shm s; finish_received := finish_received s;
       child_exited := child_exited s || all; failed := failed s |}, all).
 
 (* drop_pending_forks (fix df8806b): FORK_END can only arrive through the pipe; once the pipe is empty
@@ -444,7 +479,7 @@ Definition drop_pending_forks (nowriter : bool) (s : rs) : rs * bool :=
   match rchan s with
   | [] =>
       if nowriter then
-        ({| tids := map drop_mark (tids s); rchan := rchan s; finish_received := finish_received s;
+        ({| tids := map drop_mark (tids s); rchan := rchan s; shm := shm s; finish_received := finish_received s;
             child_exited := child_exited s; failed := failed s |}, existsb pending_fork (tids s))
       else (s, false)
   | _ :: _ => (s, false)
@@ -461,7 +496,7 @@ Fixpoint stop_loop (dropf : bool) (fuel : nat) (dead : Z -> bool) (nowriter : bo
       match rchan s with
       | m :: ch =>
           stop_loop dropf k dead nowriter
-                    (handle m {| tids := tids s; rchan := ch; finish_received := finish_received s;
+                    (handle m {| tids := tids s; rchan := ch; shm := shm s; finish_received := finish_received s;
                                  child_exited := child_exited s; failed := failed s |})
       | [] =>
           let '(s1, all) := check_tid_list dead s in
@@ -473,7 +508,7 @@ Fixpoint stop_loop (dropf : bool) (fuel : nat) (dead : Z -> bool) (nowriter : bo
       end
   end.
 Definition rs0 (ch : list tmsg) : rs :=
-  {| tids := []; rchan := ch; finish_received := false; child_exited := false; failed := false |}.
+  {| tids := []; rchan := ch; shm := []; finish_received := false; child_exited := false; failed := false |}.
 Definition is_stopped (o : outcome) : bool := match o with Stopped _ => true | Spinning _ => false end.
 Definition out_state (o : outcome) : rs := match o with Stopped s => s | Spinning s => s end.
 Local Close Scope Z_scope.
@@ -578,7 +613,8 @@ Inductive lev :=
 | LCheck (dead : list Z)                          (* tids whose /proc/<tid>/stat is gone or shows Z *)
          (ret cex fin : bool) (l : list (Z * Z * bool))    (* what the implementation reported *)
 | LDrop (nowriter : bool)                         (* drop_pending_forks on an empty pipe with / without a writer *)
-        (ret : bool) (l : list (Z * Z * bool)).
+        (ret : bool) (l : list (Z * Z * bool))
+| LShm (l : list (Z * Z * Z)).                    (* shmem_list_head as the implementation shows it *)
 Definition tl_eqb (t : tl) (e : Z * Z * bool) : bool :=
   let '(p, i, x) := e in (t_pid t =? p)%Z && (t_tid t =? i)%Z && Bool.eqb (t_exited t) x.
 Fixpoint tls_eqb (a : list tl) (b : list (Z * Z * bool)) : bool :=
@@ -588,6 +624,12 @@ Fixpoint tls_eqb (a : list tl) (b : list (Z * Z * bool)) : bool :=
   | _, _ => false
   end.
 Definition in_list (l : list Z) (z : Z) : bool := existsb (Z.eqb z) l.
+Fixpoint ids_eqb (a b : list (Z * Z * Z)) : bool :=
+  match a, b with
+  | [], [] => true
+  | x :: a', y :: b' => id_eqb x y && ids_eqb a' b'
+  | _, _ => false
+  end.
 Fixpoint live_agrees (evs : list lev) (s : rs) : bool :=
   match evs with
   | [] => true
@@ -600,6 +642,7 @@ Fixpoint live_agrees (evs : list lev) (s : rs) : bool :=
   | LDrop nw ret l :: r =>
       let '(s1, d) := drop_pending_forks nw s in
       Bool.eqb d ret && tls_eqb (tids s1) l && live_agrees r s1
+  | LShm l :: r => ids_eqb (shm s) l && live_agrees r s
   end.
 (* the property on what the implementation reported: a dead task with a real tid is marked, when every
    entry is marked the answer is "all exited", and once the pipe is empty without a writer no
@@ -693,22 +736,59 @@ Fixpoint nest_ok (stk : list N) (l : list drec) : bool :=
         end
       else nest_ok stk r
   end.
-Record ecase := {
-  e_ftab : list (N * N);          (* start, size of f0, f1, ... *)
-  e_log : list (N * N);           (* the thread's own log: (0 enter | 1 leave, k) *)
-  e_bytes : list N;               (* <tid>.dat *)
-  e_crash : bool;                 (* the thread died in the SIGSEGV/SIGABRT handler path: open calls included *)
-  e_nest : bool }.                (* check nesting (off when the image was replaced by exec) *)
+(* what the record-time options keep of the program's own log: -N functions (and everything below them)
+   and calls at a nesting level >= the -D limit are not recorded (level of a logged call = number of
+   open logged calls + 1: main / the thread function is level 0) *)
+Fixpoint filt (nt : list N) (maxd : N) (d : N) (hide : option N) (l : list (N * N)) : list (N * N) :=
+  match l with
+  | [] => []
+  | (ty, k) :: r =>
+      if (ty =? 0)%N then
+        match hide with
+        | Some _ => filt nt maxd (d + 1) hide r
+        | None =>
+            if existsb (N.eqb k) nt then filt nt maxd (d + 1) (Some d) r
+            else if (d + 1 <? maxd)%N then (ty, k) :: filt nt maxd (d + 1) None r
+            else filt nt maxd (d + 1) None r
+        end
+      else
+        let d' := (d - 1)%N in
+        match hide with
+        | Some h => if (h =? d')%N then filt nt maxd d' None r else filt nt maxd d' hide r
+        | None => if (d' + 1 <? maxd)%N then (ty, k) :: filt nt maxd d' None r else filt nt maxd d' None r
+        end
+  end.
 Definition crash_log (l : list (N * N)) : list (N * N) :=
   match rev l with
   | (1%N, _) :: _ => removelast l       (* died while logging the leave: that call is still open *)
   | _ => l
   end.
+Record ecase := {
+  e_ftab : list (N * N);          (* start, size of f0, f1, ... *)
+  e_nt : list N; e_maxd : N;      (* record options -N f<k> ... / -D <n> *)
+  e_log1 : list (N * N);          (* the thread's own log: (0 enter | 1 leave, k) *)
+  e_log2 : list (N * N);          (* ... of the image exec()ed in the same task ([] if none) *)
+  e_bytes : list N;               (* <tid>.dat *)
+  e_crash1 : bool;                (* the thread died in the SIGSEGV/SIGABRT handler path: open calls included *)
+  e_crash2 : bool;                (* ... in the second image *)
+  e_nest : bool }.                (* check nesting (off when the image was replaced by exec) *)
+Definition expect1 (c : ecase) := filt (e_nt c) (e_maxd c) 0%N None (if e_crash1 c then crash_log (e_log1 c) else e_log1 c).
+Definition expect2 (c : ecase) := filt (e_nt c) (e_maxd c) 0%N None (if e_crash2 c then crash_log (e_log2 c) else e_log2 c).
+(* p = p1 ++ p2, p1 a prefix of the first image's trace, p2 of the second's (complete where a crash
+   handler ran) *)
+Definition split_ok (c : ecase) (p : list (N * N)) (i : nat) : bool :=
+  let p1 := firstn i p in let p2 := skipn i p in
+  ev_prefix p1 (expect1 c) && ev_prefix p2 (expect2 c)
+  && (negb (e_crash1 c) || Nat.eqb (length p1) (length (expect1 c)))
+  && (negb (e_crash2 c) || Nat.eqb (length p2) (length (expect2 c))).
 Definition ok_e2e (c : ecase) : bool :=
   match dec_bytes (e_bytes c) with
   | None => false
   | Some l =>
       let p := project (e_ftab c) l in
-      ev_prefix p (e_log c) && times_ok 0 l && (negb (e_nest c) || nest_ok [] l)
-      && (negb (e_crash c) || Nat.eqb (length p) (length (crash_log (e_log c))))
+      times_ok 0 l && (negb (e_nest c) || nest_ok [] l)
+      && match e_log2 c with
+         | [] => split_ok c p (length p)
+         | _ => existsb (split_ok c p) (seq 0 (S (length p)))
+         end
   end.
